@@ -1,6 +1,6 @@
 (* C16 — pipelines are the composition of their steps; methods rebuild from their parameters. *)
 From Coq Require Import ZArith List Bool Arith.
-From SKC Require Import Model.Pipeline Theory.Pipeline.
+From SKC Require Import Model.Pipeline Theory.Pipeline Theory.Suffix.
 Import ListNotations.
 
 Theorem C16_evaluate_is_composition : forall (D R : Type) (t1 t2 t3 : D -> D) (dm : D -> R) (d : D),
@@ -33,15 +33,18 @@ Theorem C16_one_name_per_step : forall names, length (unique_names names) = leng
 Proof. exact unique_names_length. Qed.
 Print Assumptions C16_one_name_per_step.
 
-(* names are unique provided suffixing is injective (it is: the last "_" separates a digit string)
-   and no listed name already equals a generated name of a repeated one — the explicit side
-   condition; Findings.unique_names_collision_refuted shows it cannot be dropped *)
+(* names are unique provided no listed name already equals a generated name of a repeated one - the explicit side
+   condition; Findings.unique_names_collision_refuted shows it cannot be dropped (known finding).  That suffixing is
+   injective (the last "_" separates a non-empty digit string, and decimal notation is injective) is proved. *)
+Theorem C16_suffixing_is_injective : forall x y k l, suffix x k = suffix y l -> x = y /\ k = l.
+Proof. exact suffix_injective. Qed.
+Print Assumptions C16_suffixing_is_injective.
+
 Theorem C16_step_names_unique_partial :
-  (forall x y k l, suffix x k = suffix y l -> x = y /\ k = l) ->
   forall names,
   (forall x k, (1 < count_name x names)%nat -> (1 <= k <= count_name x names)%nat -> ~ In (suffix x k) names) ->
   NoDup (unique_names names).
-Proof. exact unique_names_nodup. Qed.
+Proof. exact unique_names_nodup_unconditional. Qed.
 Print Assumptions C16_step_names_unique_partial.
 
 Theorem C16_copy_changes_only_the_overrides : forall m ov p v,
